@@ -1,9 +1,12 @@
 import XModel.ManagerFrame
 import XModel.ManagerC17
+import XModel.ManagerC17b
 /-!
 # C17 — a frozen manager's expression graph cannot change, yet values still propagate
 
-Only property theorems and non-vacuity examples live here; the lemmas are in `XModel/ManagerFrame.lean`.
+Only property theorems and non-vacuity examples live here; the lemmas are in `XModel/ManagerFrame.lean`,
+`XModel/ManagerC17.lean` (simulation by the never-frozen manager) and `XModel/ManagerC17b.lean` (which `load` /
+`copy_expr_from` calls are rejected, said without running `load`: `C17_frozen_load_rejected_iff`).
 The model is `XModel/Manager.lean`, the functions the driver executes in the correspondence run.
 -/
 namespace Properties.C17
@@ -90,5 +93,42 @@ def unfrozen : MState := { exState with frozen := false }
 def during : List Call := [.setValue pa (.int 5), .setExpr pb (.lit (.int 0)), .unregister pb, .cleanup, .setValue pa (.int 7), .refresh]
 example : effective id (setF true unfrozen) during = [.setValue pa (.int 5), .cleanup, .setValue pa (.int 7)] := rfl
 example : holdsInt (get (applyAll id (setF true unfrozen) during).store pb) 8 = true := by decide
+
+/-! ### which `load` calls are rejected, without running `load`
+
+`rejectedB` says for `.load`: "the model's `load` on the frozen state errors".  The explicit condition: -/
+
+/-- a frozen manager's `load(dump, overwrite)` raises (`ValueError`, state untouched) exactly when some pair would
+    register something: `overwrite` is set and the dump is non-empty, or some target has no definition yet; otherwise
+    (every pair skipped) it is a no-op -/
+theorem C17_frozen_load_rejected_iff (sf : MState) (ow : Bool) (h : sf.frozen = true) (pairs : List (Path × Expr)) :
+    ((load sf ow pairs).2.isSome = pairs.any (fun pe => ow || (lookDef sf.defs pe.1).isNone)) ∧
+    ((load sf ow pairs).2 = some .valueError ↔ ∃ pe ∈ pairs, ow = true ∨ lookDef sf.defs pe.1 = none) ∧
+    load sf ow pairs = (sf, if pairs.any (fun pe => ow || (lookDef sf.defs pe.1).isNone) then some .valueError else none) :=
+  ⟨load_frozen_rejected_iff sf ow h pairs, load_frozen_error_iff sf ow h pairs, load_frozen_outcome sf ow h pairs⟩
+
+/-- `C17_frozen_call` with the explicit rejection test (`rejectedExplB` = `rejectedB`, the `load` case replaced by the
+    condition above) -/
+theorem C17_frozen_call_explicit (sched : Sched) (s : MState) (h : s.frozen = false) (c : Call) :
+    (rejectedExplB (setF true s) c = true ∧ apply sched (setF true s) c = (setF true s, some .valueError)) ∨
+    (rejectedExplB (setF true s) c = false ∧
+     apply sched (setF true s) c = (setF true (apply sched s c).1, (apply sched s c).2) ∧
+     (apply sched s c).1.frozen = false) :=
+  frozen_sim_expl sched s h c
+
+/-- `copy_expr_from` into a frozen manager: destination untouched; `ValueError` exactly when some copied pair would
+    (re)register a definition -/
+theorem C17_frozen_copy_expr_from (dst src : MState) (name : String) (b : String → Option Path) (ow : Bool)
+    (h : dst.frozen = true) :
+    copyExprFrom dst src name b ow =
+      (dst, if loadTouches dst.defs ow (copyPairs src name b) then some .valueError else none) :=
+  copyExprFrom_frozen_outcome dst src name b ow h
+
+/-! non-vacuity: on `exState` (`d.b` defined) — skipped pair, new target, overwrite -/
+example : (load exState false [(pb, .lit (.int 0))]).2 = none ∧
+    (load exState false [(pb, .lit (.int 0)), (pa, .lit (.int 0))]).2 = some .valueError ∧
+    (load exState true [(pb, .lit (.int 0))]).2 = some .valueError ∧ (load exState true []).2 = none := by decide
+example : rejectedExplB exState (.load false [(pb, .lit (.int 0))]) = false ∧
+    rejectedExplB exState (.load true [(pb, .lit (.int 0))]) = true := by decide
 
 end Properties.C17
